@@ -1562,6 +1562,9 @@ struct ExtractSpec {
     stmts_n: usize,
     /// `//@wrap-ok`: the slice ends in the value of its block, while its `?` exits are Err exits of the enclosing function: the value is the Ok result
     wrap_ok: bool,
+    /// `//@refarg m`: every argument of a call `self.m(..)` is a reference handed to a generic `AsRef` parameter (std's blanket
+    /// `impl AsRef<U> for &T`); it is wrapped in the unit's `shim_by_ref`, whose `AsRef` impl is that blanket impl spelled out
+    refargs: Vec<String>,
     no_loop_isolation: bool,
     file: String,
     impl_key: Option<String>,
@@ -2007,6 +2010,22 @@ impl Unit {
                 }
             }
             WildPass { n: 0, log: &mut log }.visit_block_mut(&mut block);
+        }
+        if !spec.refargs.is_empty() {
+            struct RefArg<'a> { ms: &'a [String], log: &'a mut Vec<String> }
+            impl<'a> VisitMut for RefArg<'a> {
+                fn visit_expr_method_call_mut(&mut self, mc: &mut syn::ExprMethodCall) {
+                    visit_mut::visit_expr_method_call_mut(self, mc);
+                    if self.ms.iter().any(|m| mc.method == m.as_str()) && matches!(&*mc.receiver, Expr::Path(p) if p.path.is_ident("self")) {
+                        for a in mc.args.iter_mut() {
+                            let inner = a.clone();
+                            *a = parse_quote! { shim_by_ref(#inner) };
+                        }
+                        self.log.push(format!("R-REFARG reference arguments of self.{}(..) passed through the spelled-out blanket `impl AsRef<U> for &T`", mc.method));
+                    }
+                }
+            }
+            RefArg { ms: &spec.refargs, log: &mut log }.visit_block_mut(&mut block);
         }
         // R-FORTMP
         ForTmp { log: &mut log, n: 0 }.visit_block_mut(&mut block);
@@ -3001,6 +3020,7 @@ impl Unit {
                                     "anchor" => spec.stmt_anchor = Some(rest.to_string()),
                                     "to-block-end" => spec.to_block_end = true,
                                     "wrap-ok" => spec.wrap_ok = true,
+                                    "refarg" => spec.refargs.extend(rest.split_whitespace().map(|x| x.to_string())),
                                     "stmts" => spec.stmts_n = rest.trim().parse().unwrap_or_else(|_| die("bad //@stmts")),
                                     "anchor-up" => spec.anchor_up = rest.parse().unwrap_or_else(|_| die("bad //@anchor-up")),
                                     "sig" => spec.sig_text = Some(rest.to_string()),
